@@ -16,6 +16,7 @@ EXPLANATION = (
     "sit in the hand-triaged table of arms that are infeasible for reasons E1 does not track; new reachable aborts are reported.")
 
 HERE = os.path.dirname(os.path.abspath(__file__))
+KEYMAP3, KEYMAP5 = {}, {}
 
 
 def _load_table(name):
@@ -112,6 +113,45 @@ def discharge(F, site):
     return None
 
 
+def _helper_position(F, roots, POS, depth):
+    """the value comes from a local function whose returned value is itself a search / match / length position (followed two levels)"""
+    if depth > 2:
+        return False
+    for rr in roots:
+        if rr[0] != 'call':
+            continue
+        callee = rr[4].get('resolved') or rr[4].get('callee') or ''
+        cands = [q for q in (callee, rr[1]) if q in F.fn_bodies]
+        for q in cands:
+            rets = F.trace(q, {'copy': {'l': 0, 'p': []}}, deep=True)
+            if any(x[0] == 'call' and x[1].endswith(POS) for x in rets) or any(x[0] == 'call' and ('Match' in x[1] or 'regex' in x[1]) for x in rets):
+                return True
+            if _helper_position(F, rets, POS, depth + 1):
+                return True
+    return False
+
+
+def _short(r):
+    if r[0] == 'param':
+        return 'param%d.%s' % (r[1], '.'.join(r[2]))
+    if r[0] == 'local':
+        return 'local.' + '.'.join(r[2])
+    if r[0] == 'call':
+        return r[1].split('::')[-1] + '()'
+    if r[0] == 'const':
+        return 'const:' + str(r[1])[:24]
+    if r[0] == 'binop':
+        return 'binop:' + r[1].replace('WithOverflow', '')
+    if r[0] == 'agg':
+        return 'agg:' + str(r[1][0])
+    return r[0]
+
+
+def _sigF(F, p, o):
+    """stable description of where an operand comes from (no block numbers, no ordinals): survives unrelated edits of the function"""
+    return ','.join(sorted({_short(r) for r in F.trace(p, o)}))
+
+
 def run(F, tier, res):
     res.assumptions += ['Rust `regex` and Python `re` agree on group structure', 'std / dependency functions do not panic on the values they are given (not analysed)']
     res.not_decided += ['hangs / termination, allocation size, str char-boundary slicing in general, indexing inside the alignment kernels (align.rs, edits.rs: DP table indices), arithmetic other than subtraction',
@@ -174,7 +214,9 @@ def run(F, tier, res):
     for s in sites:
         n3 += 1
         why = discharge(F, s)
-        key = 'fn=%s;sub#%d' % (s['fn'], s['ord'])
+        key = 'fn=%s;sub[%s]-[%s]' % (s['fn'], _sigF(F, s['fn'], s['ops'][0]) if s['ops'] else '?', _sigF(F, s['fn'], s['ops'][1]) if s['ops'] else '?')
+        oldkey = 'fn=%s;sub#%d' % (s['fn'], s['ord'])
+        KEYMAP3[oldkey] = key
         if why:
             ok3 += 1
             samples.append('%s: %s' % (key, why))
@@ -200,7 +242,7 @@ def run(F, tier, res):
                 continue
             ordn += 1
             n5 += 1
-            key = 'fn=%s;slice#%d' % (p, ordn)
+            oldkey = 'fn=%s;slice#%d' % (p, ordn)
             # the range aggregate's operands
             bounds = []
             for rr in F.trace(p, c['args'][1]):
@@ -210,6 +252,8 @@ def run(F, tier, res):
             for (dbb, kind, payload) in (F.local_defs(p).get(pl['l'], []) if pl and not pl['p'] else []):
                 if kind == 'assign' and payload[0] == 'agg':
                     rng = payload
+            key = 'fn=%s;slice[%s]' % (p, ' .. '.join(_sigF(F, p, o) for o in rng[2]) if rng is not None else _sigF(F, p, c['args'][1]))
+            KEYMAP5[oldkey] = key
             why = None
             if rng is None:
                 why = None
@@ -221,6 +265,8 @@ def run(F, tier, res):
                     roots = F.trace(p, o)
                     if any(rr[0] == 'call' and rr[1].endswith(POS) for rr in roots) or any(rr[0] == 'call' and ('Match' in rr[1] or 'regex' in rr[1]) for rr in roots):
                         continue       # a position produced by a search / match / length of a string
+                    if _helper_position(F, roots, POS, 0):
+                        continue       # ... computed by a local helper whose result is such a position (extract-function refactorings)
                     if lits and all(v[0] == 'int' for v in lits) and not any(rr[0] in ('param', 'call') for rr in roots):
                         # constant bound: must be under a prefix test (starts_with / strip_prefix / ends_with) or be 0
                         if all(v[1] == 0 for v in lits):
@@ -315,23 +361,8 @@ def run(F, tier, res):
     samples6 = []
     nonempty_consumers = ('::initialize_hunk', '::write_line_of_code_with_optional_path_and_line_number')
 
-    def _short(r):
-        if r[0] == 'param':
-            return 'param%d.%s' % (r[1], '.'.join(r[2]))
-        if r[0] == 'local':
-            return 'local.' + '.'.join(r[2])
-        if r[0] == 'call':
-            return r[1].split('::')[-1] + '()'
-        if r[0] == 'const':
-            return 'const:' + str(r[1])[:24]
-        if r[0] == 'binop':
-            return 'binop:' + r[1].replace('WithOverflow', '')
-        if r[0] == 'agg':
-            return 'agg:' + str(r[1][0])
-        return r[0]
-
     def _sig(p, o):
-        return ','.join(sorted({_short(r) for r in F.trace(p, o)}))
+        return _sigF(F, p, o)
 
     def _len_guard(p, at_bb, k, container_roots):
         """dominating comparison len(container) > k (k constant)"""
